@@ -171,7 +171,10 @@ theorem shouldIncr_eq (c : HCfg) (i x : Nat) (hn : 2 ≤ c.n) (hi : i < c.n) (hx
   by_cases hi0 : i = 0
   · subst hi0
     have : ¬ c.n ≤ 0 + 1 := by omega
-    simp [this]
+    simp only [if_true, this, decide_false, Bool.false_or, Nat.pow_zero]
+    rw [Bool.eq_iff_iff]
+    simp only [beq_iff_eq, Bool.and_eq_true, decide_eq_true_eq]
+    omega
   · simp only [hi0, if_false]
     by_cases hx0 : x = 0
     · subst hx0
@@ -284,7 +287,8 @@ theorem foldl_min_orDefault (a d : Nat) (had : a ≤ d) (ins : List (Option Nat)
     cases o with
     | none =>
       simp only [orDefault, List.map_cons, List.foldl_cons, Option.getD_none] at ih ⊢
-      rw [Nat.min_eq_left had]
+      have e : a.min d = a := Nat.min_eq_left had
+      rw [e]
       exact ih a had
     | some x =>
       have : (some x :: ins).filterMap id = x :: ins.filterMap id := rfl
@@ -300,7 +304,8 @@ theorem foldl_max_orDefault (a : Nat) (ins : List (Option Nat)) :
     cases o with
     | none =>
       simp only [orDefault, List.map_cons, List.foldl_cons, Option.getD_none] at ih ⊢
-      rw [Nat.max_eq_left (Nat.zero_le a)]
+      have e : a.max 0 = a := Nat.max_eq_left (Nat.zero_le a)
+      rw [e]
       exact ih a
     | some x =>
       have : (some x :: ins).filterMap id = x :: ins.filterMap id := rfl
